@@ -211,15 +211,17 @@ impl Layout {
         self.frames.last().map(|(s, l)| s + 4 + l).unwrap_or(0)
     }
     pub fn phase(&self, off: usize) -> Phase {
-        // frames are few (<= a few dozen); linear scan is fine
-        for &(s, l) in &self.frames {
+        // frames are pushed in increasing order of their start: find the last frame starting at or before `off`
+        let idx = self.frames.partition_point(|&(s, _)| s <= off);
+        if idx > 0 {
+            let (s, l) = self.frames[idx - 1];
             if off == s {
                 return Phase::Boundary;
             }
-            if off > s && off < s + 4 {
+            if off < s + 4 {
                 return Phase::Prefix((off - s) as u8);
             }
-            if off >= s + 4 && off < s + 4 + l {
+            if off < s.saturating_add(4).saturating_add(l) {
                 return Phase::Payload { done: off - s - 4, len: l };
             }
         }
